@@ -60,6 +60,54 @@ fn rt<const H: usize>(dir: &Path, comp: bool, start: u64, slack: usize, hdr: &[u
         match b.app { Some((o, l)) => format!("{o},{l}"), None => "full".into() }, sync, rnd, seq, it, pr, op)
 }
 
+/// several records appended back to back (one writer, one sync), then every record read back through every path and
+/// the writer reopened: `n=|end=|sync=|bad=|iter=|open=` (implementation alone; the plugin's monitor decides)
+fn seq<const H: usize>(dir: &Path, comp: bool, start: u64, specs: &[&str]) -> String {
+    let path = dir.join("seq.seg");
+    let _ = std::fs::remove_file(&path);
+    let datas: Vec<Vec<u8>> = specs.iter().map(|s| expand(s)).collect();
+    // room for zstd expanding incompressible data (a few dozen bytes per record)
+    let size = start as usize + datas.iter().map(|d| 8 + H + d.len() + d.len() / 100 + 128).sum::<usize>() + 64;
+    let mut w = Writer::<H>::create(&path, size, start).expect("create");
+    if comp { w.enable_compression(); }
+    let mut end = start; let mut recs: Vec<(u64, usize)> = vec![]; let mut bad = String::from("-");
+    for (i, d) in datas.iter().enumerate() {
+        let h = [(i as u8).wrapping_mul(37).wrapping_add(1); H];
+        match w.append(&h, d) {
+            Ok((o, l)) => { if o != end && bad == "-" { bad = format!("append#{i}@{o}!={end}"); } recs.push((o, l)); end = o + l as u64; }
+            Err(e) => { if bad == "-" { bad = format!("append#{i}:{}", werr_str(&e)); } break; }
+        }
+    }
+    let sync = w.sync().expect("sync");
+    let fl = w.flushed_offset();
+    let mut file = vec![0u8; size];
+    w.file().read_exact_at(&mut file, 0).expect("read file");
+    let same = |i: usize, hd: &[u8], dt: &[u8]| hd == &[(i as u8).wrapping_mul(37).wrapping_add(1); H][..] && dt == &datas[i][..];
+    let chk = catch(|| {
+        let mut first = String::from("-");
+        let mut r1 = Reader::<H>::open(&path, Some(fl.clone())).unwrap();
+        let mut r2 = Reader::<H>::open(&path, Some(fl.clone())).unwrap();
+        for (i, &(o, l)) in recs.iter().enumerate() {
+            let a = match r1.read_record(o, ReadHint::Random) { Ok(r) => same(i, &r.header, &r.data) && r.len == l, Err(_) => false };
+            let b = match r2.read_record(o, ReadHint::Sequential) { Ok(r) => same(i, &r.header, &r.data) && r.len == l, Err(_) => false };
+            let c = match parse_record::<H>(&file, o as usize) { Ok((h, d, n)) => same(i, &h, &d) && n == l, Err(_) => false };
+            if !(a && b && c) && first == "-" { first = format!("rec#{i}@{o}:{}{}{}", if a { "" } else { "rnd" }, if b { "" } else { "seq" }, if c { "" } else { "parse" }); }
+        }
+        let mut r3 = Reader::<H>::open(&path, Some(fl.clone())).unwrap();
+        let mut it = r3.iter(start); let mut n = 0usize;
+        loop { match it.next_record() {
+            Ok(Some(r)) => { if n >= recs.len() || r.offset != recs[n].0 || !same(n, &r.header, &r.data) { if first == "-" { first = format!("iter#{n}@{}", r.offset); } } n += 1; }
+            Ok(None) => break,
+            Err(e) => { if first == "-" { first = format!("iter#{n}:{}", err_str(&e)); } break; } } }
+        (first, n)
+    });
+    let (first, n) = chk.unwrap_or(("PANIC".into(), 0));
+    if bad == "-" { bad = first; }
+    drop(w);
+    let op = open_str::<H>(&path, size, start);
+    format!("n={}|end={}|sync={}|bad={}|iter={}|open={}", recs.len(), end, sync, bad, n, op)
+}
+
 fn cls<const H: usize>(hdr: &[u8], data: &[u8], r: Option<Result<(Vec<u8>, Vec<u8>), ReadError>>) -> char {
     match r {
         None => 'P',
@@ -160,6 +208,9 @@ fn run_case(dir: &Path, line: &str) -> String {
             let (comp, start, slack) = (t[2] == "1", t[3].parse::<u64>().unwrap(), t[4].parse::<usize>().unwrap());
             let (hdr, data) = (expand(t[5]), expand(t[6]));
             with_h!(h, cor(dir, comp, start, slack, &hdr, &data, t[8], &t[9..])) }
+        "seq" => { let h: usize = t[1].parse().unwrap();
+            let (comp, start) = (t[2] == "1", t[3].parse::<u64>().unwrap());
+            with_h!(h, seq(dir, comp, start, &t[4..])) }
         "raw" => { let h: usize = t[1].parse().unwrap(); let off: u64 = t[2].parse().unwrap(); let b = expand(t[3]);
             with_h!(h, raw(off, &b)) }
         _ => "BADCASE".into(),
@@ -257,6 +308,24 @@ fn generate(g: &mut Gen, thorough: bool) {
         let r = g.record(h, n, i % 3 == 0, true);
         g.push(format!("cor {r} bitsx")); g.push(format!("cor {r} truncx"));
         if n <= 130 || (thorough && n <= 330 && n % 7 == 0) { let s = g.rng.below(1000); g.push(format!("cor {r} burstx {s}")); }
+    }
+    // --- sequences of records through one writer (implementation alone): sizes around the 16 KiB write buffer and the
+    //     64 KiB read window mixed with small records, so that a record written past the buffer is followed by buffered ones
+    let nseq = if thorough { 240 } else { 40 };
+    for i in 0..nseq {
+        let h = HS[i % 5];
+        let k = 2 + g.rng.below(6) as usize;
+        let mut specs: Vec<String> = vec![];
+        for j in 0..k {
+            let n = match g.rng.below(8) { 0 | 1 => g.rng.below(64) as usize, 2 => 100 + g.rng.below(400) as usize,
+                3 => 16384 - 40 + g.rng.below(80) as usize, 4 => 16385 + g.rng.below(5000) as usize, 5 => 65536 - 40 + g.rng.below(80) as usize,
+                6 => 2000 + g.rng.below(3000) as usize, _ => 20000 + g.rng.below(60000) as usize };
+            // at least one large record in front of a small one in every other sequence
+            let n = if i % 2 == 0 && j == 0 { 16385 + g.rng.below(40000) as usize } else { n };
+            specs.push(g.data(n, i % 3 != 0));
+        }
+        let start = *g.rng.pick(&[0u64, 16, 48, 64]);
+        g.push(format!("seq {h} {} {start} {}", (i % 4 == 1) as u8, specs.join(" ")));
     }
     // --- malformed stream: arbitrary bytes / arbitrary length words / arbitrary offsets
     let nraw = if thorough { 6000 } else { 1200 };
